@@ -5,6 +5,7 @@ import (
 	"fmt"
 	"reflect"
 	"sort"
+	"strings"
 	"sync"
 	"testing"
 	"time"
@@ -147,6 +148,12 @@ func c05RunConc(t rt.TB, c c05Conc) {
 					class = "one-emission-between-final-flush-and-completion"
 					break
 				}
+			}
+			// The emissions are those of an admissible output, in another order: two
+			// values were taken out of the operator's state in order, each under the lock,
+			// and emitted after unlocking by two goroutines that crossed.
+			if class == "output-matches-no-arrival-order" && c05Permuted(got, admTraces) {
+				class = "emissions-cross-each-other"
 			}
 			// BufferWhen: the same loss when the overtaken buffer was the one taken by the
 			// boundary's own completion (no admissible output has it as an extra emission):
@@ -446,4 +453,23 @@ func isContiguousGap(sub, full []int) bool {
 		}
 	}
 	return gap > 0
+}
+
+// c05Permuted: got has the ending and, as a multiset, the emissions of an admissible output.
+func c05Permuted(got model.Trace, adm []model.Trace) bool {
+	key := func(vs []any) string {
+		ks := make([]string, len(vs))
+		for i, v := range vs {
+			ks[i] = fmt.Sprint(v)
+		}
+		sort.Strings(ks)
+		return strings.Join(ks, "|")
+	}
+	g := key(got.Vals)
+	for _, a := range adm {
+		if a.End == got.End && a.Err == got.Err && len(a.Vals) == len(got.Vals) && key(a.Vals) == g {
+			return true
+		}
+	}
+	return false
 }
